@@ -1,5 +1,7 @@
 import ASV.Drv.J
 import ASV.Spec.Parallel
+import ASV.Model.Ids
+import ASV.Model.ParallelWorkers
 namespace ASV.Drv.C18
 open Lean ASV ASV.Drv ASV.Parallel
 
@@ -18,11 +20,14 @@ def execOfJson (j : Json) : R (ExecResult String) := do
   | "err" => return .failed (← asStr (← idx j 1))
   | t => throw s!"unknown exec outcome {t}"
 
-def eventOfJson (j : Json) : R Event := do
+/-- `["exit", p]` = child process `p` of the caller seen dead; attributed to the pool (or not) by
+    the model's `classifyExit` from the children before / after the pool was created -/
+def eventOfJson (before after : List Nat) (j : Json) : R Event := do
   match (← asStr (← idx j 0)) with
   | "done" => return .done (← asNat (← idx j 1))
   | "timeout" => return .timeout
   | "died" => return .died (← asNat (← idx j 1))
+  | "exit" => return classifyExit before after (← asNat (← idx j 1))
   | t => throw s!"unknown event {t}"
 
 def outcomeToJson : Outcome String Int → Json
@@ -50,12 +55,80 @@ def outcomeOfJson (j : Json) : R (Outcome String Int) := do
 /-- the exception `child_process` turns a `KeyboardInterrupt` into -/
 def interrupt : String := "RuntimeError:Killed by keyboard interrupt"
 
+def asChars (j : Json) : R Ids.Str := do return (← asStr j).toList
+def jS (s : Ids.Str) : Json := Json.str (String.ofList s)
+def recToJson (r : Ids.Rec) : Json :=
+  jArr [jS r.id, jS r.name, match r.orig with | none => Json.null | some o => jS o]
+
+/-- identifiers through the clean-up stage of `pre_process_sequences`: the model threads the id set
+    in the parent (C16's `preProcessIds`); `shipped` is what comes out if a copy of the set travels
+    with every task batch instead (`parallelFunctionShipped`, batches in index order) -/
+def handlePrepIds (j : Json) : R Json := do
+  let allowLong ← boolF j "allow_long"
+  let cpus ← natF j "cpus"
+  -- third component: the record's `accession` annotation (C16's model) — the C18 cases carry none
+  let inp ← listOf (fun p => do return ((← asChars (← idx p 0)), (← asChars (← idx p 1)), (none : Option Ids.Str))) (← fld j "recs")
+  let model := match Ids.preProcessIds allowLong inp with
+    | .ok recs => jObj [("recs", jArr (recs.map recToJson))]
+    | .error _ => jObj [("err", Json.str "task")]
+  let shipped : Json := match Ids.uniquePass (Ids.mkRecs 1 inp) with
+    | .error _ => Json.null
+    | .ok (recs1, taken) =>
+      let g := fun (t : List Ids.Str) (r : Ids.Rec) =>
+        match Ids.fixRecordNameId allowLong t r with
+        | .error e => (Except.error e : Except Ids.Err (List Ids.Str × Ids.Rec))
+        | .ok (r', t') => .ok (t', r')
+      let m := numChunks recs1.length cpus
+      match parallelFunctionShipped 1 g taken recs1 cpus false ((List.range m).map Event.done) with
+      | .returned l => jArr (l.filterMap fun x => x.map recToJson)
+      | _ => Json.null
+  return jObj [("model", model), ("shipped", shipped), ("scope", toJson true)]
+
+def optStr (j : Json) : R (Option String) :=
+  match j with
+  | .null => pure none
+  | _ => do return some (← asStr j)
+def jOptStr : Option String → Json
+  | none => Json.null
+  | some s => Json.str s
+
+/-- the worker functions on the observable part of each record: `[seq, skip, n_cds]`; for
+    `genefind` additionally what the gene finder would do (`["finds", n]` | `["fails"]`) -/
+def handleWorkers (j : Json) : R Json := do
+  let func ← strF j "func"
+  let recs ← arrF j "records"
+  let results : List (Except String Json) ← recs.mapM fun r => do
+    let seq := (← asStr (← idx r 0)).toList
+    let skip ← optStr (← idx r 1)
+    let cds ← asNat (← idx r 2)
+    match func with
+    | "sanitise" =>
+      let out := sanitiseSequence ⟨seq, skip⟩
+      return .ok (jArr [Json.str (String.ofList out.seq), jOptStr out.skip, toJson cds])
+    | "genefind" =>
+      let g ← idx r 3
+      let gf ← match (← asStr (← idx g 0)) with
+        | "finds" => do pure (GeneFinder.finds (← asNat (← idx g 1)))
+        | _ => pure GeneFinder.fails
+      match ensureCdsInfo false false gf ⟨skip, cds⟩ with
+      | .ok out => return .ok (jArr [Json.str (String.ofList seq), jOptStr out.skip, toJson out.cds])
+      | .error e => return .error e
+    | f => throw s!"unknown worker function {f}"
+  let model := match comprehension (fun (x : Except String Json) => x) results with
+    | .ok l => jObj [("content", jArr l)]
+    | .error e => jObj [("err", Json.str e)]
+  return jObj [("model", model), ("scope", toJson true)]
+
 def handle (j : Json) : R Json := do
   let kind ← strF j "kind"
+  if kind == "prep_ids" then return ← handlePrepIds j
+  if kind == "workers" then return ← handleWorkers j
   let cpus ← natF j "cpus"
   let cfg ← natF j "config_cpus"
   let ht ← boolF j "timeout"
-  let evs ← listOf eventOfJson (← fld j "events")
+  let before := (listOf asNat (fldD j "before" (jArr []))).toOption.getD []
+  let after := (listOf asNat (fldD j "after" (jArr []))).toOption.getD []
+  let evs ← listOf (eventOfJson before after) (← fld j "events")
   let impl? : Option (Outcome String Int) ←
     match j.getObjVal? "impl" with
     | .ok x => do pure (some (← outcomeOfJson x))
